@@ -132,17 +132,23 @@ func runHeap(c *HeapCase) (interface{}, error) {
 			now := observeTok(t, pub)
 			b := birth[i]
 			if now.Str != b.Str || now.Code != b.Code || now.Ser != b.Ser || now.Rev != b.Rev || now.ReStr != b.ReStr || now.Auth != b.Auth {
-				what := "String()"
-				switch {
-				case now.Ser != b.Ser:
-					what = "Serialize()"
-				case now.Rev != b.Rev:
-					what = "RevocationIds()"
-				case now.Auth != b.Auth:
-					what = "Authorize outcome " + b.Auth + " -> " + now.Auth
-				case now.ReStr != b.ReStr:
-					what = "Unmarshal(Serialize()) content"
+				parts := []string{}
+				if now.Str != b.Str || now.Code != b.Code {
+					parts = append(parts, "String()")
 				}
+				if now.Ser != b.Ser {
+					parts = append(parts, "Serialize()")
+				}
+				if now.Rev != b.Rev {
+					parts = append(parts, "RevocationIds()")
+				}
+				if now.Auth != b.Auth {
+					parts = append(parts, "Authorize outcome "+b.Auth+" -> "+now.Auth)
+				}
+				if now.ReStr != b.ReStr {
+					parts = append(parts, "Unmarshal(Serialize()) content")
+				}
+				what := strings.Join(parts, ", ")
 				bad = append(bad, fmt.Sprintf("step %d (%s): token %d changed after it was created: %s", step, op.Op, i+1, what))
 				birth[i] = now
 			}
